@@ -13,7 +13,7 @@ while a:
     if a[0] == "--tier": tier = a[1]; a = a[2:]
     elif a[0] == "--checks": checks = a[1].split(","); a = a[2:]
     else: a = a[1:]
-W = {"A": "/tmp/seed", "B": "/tmp/seed", "C": "/tmp/seed2", "D": "/tmp/seed2", "E": "/tmp/seed3", "F": "/tmp/seed3"}.get(var, "/tmp/seed4") + f"/{prop}"; O = f"{W}/out/{var}"
+W = {"A": "/tmp/seed", "B": "/tmp/seed", "C": "/tmp/seed2", "D": "/tmp/seed2", "E": "/tmp/seed3", "F": "/tmp/seed3", "G": "/tmp/seed4", "H": "/tmp/seed4"}.get(var, "/tmp/seed5") + f"/{prop}"; O = f"{W}/out/{var}"
 env = dict(os.environ, GOFLAGS="-mod=mod", GOPROXY="off")
 env.pop("GOSUMDB", None); env.pop("GOTOOLCHAIN", None)
 def sh(cmd, cwd=W, timeout=1800):
